@@ -239,7 +239,9 @@ def mInfoOf (prev : List MInfo) : MObj → MInfo
   | .rpl o r _ => match prev[o]?, prev[r]? with
     | some oi, some ri =>
       ⟨oi.iter.map (fun kv => match lookup kv.1 ri.getl with | some x => (kv.1, x) | none => kv),
-       ri.getl ++ oi.getl, oi.size, oi.bad || ri.bad⟩
+       -- `ReplaceMap.Get`: only the keys of the original map are present; the replacement wins for those
+       oi.getl.map (fun kv => match lookup kv.1 ri.getl with | some x => (kv.1, x) | none => kv),
+       oi.size, oi.bad || ri.bad⟩
     | _, _ => ⟨[], [], 0, true⟩
 
 def mUpTo (ms : List MObj) : Nat → List MInfo
@@ -721,7 +723,7 @@ def plan (F : Facts) (cfg : Cfg) (st : St) : Op → Plan
   | .mrg x y => withMref x fun a => withMref y fun b =>
     withInfo (minfo st.h a) fun ai => withInfo (minfo st.h b) fun bi =>
       match bi.iter.find? (fun kv => (lookup kv.1 ai.getl).isSome) with
-      | some kv => if kv.1 = "" then newMapPlan st (.mrg a b) else planErr
+      | some _ => planErr
       | none => newMapPlan st (.mrg a b)
   | .rpl x y => withMref x fun m => withMref y fun r =>
     withInfo (minfo st.h m) fun _ => planReplace st m r
